@@ -82,13 +82,26 @@ func VerifH_C09_isolate() {
 		s.send(vFrame(0x1, 0x4, 3, append(vBlock(true, '3'), vInsertKV...)))
 		r := get()
 		vAssert(!r.goaway && r.rst[3] == RefusedStreamError, "C09.isolate.refused-stream")
-		// its body was already on the way
-		s.send(vFrame(0x0, 0x1, 3, []byte("late")))
+		// what the peer had already sent on it before it saw the refusal: the
+		// body, a WINDOW_UPDATE, its own cancellation, or a PRIORITY frame
+		late := vRange(0, 3)
+		sent := 0
+		switch late {
+		case 0:
+			s.send(vFrame(0x0, 0x1, 3, []byte("late")))
+			sent = 4
+		case 1:
+			s.send(vFrame(0x8, 0x0, 3, []byte{0, 0, 0, 9}))
+		case 2:
+			s.send(vFrame(0x3, 0x0, 3, []byte{0, 0, 0, 8}))
+		default:
+			s.send(vFrame(0x2, 0x0, 3, []byte{0, 0, 0, 1, 7}))
+		}
 		r = get()
-		vNote(fmt.Sprintf("DATA on refused stream: goaway=%v/%d rst=%v", r.goaway, r.goawayCode, r.rst))
-		vAssert(!r.goaway, "C09.isolate.data-on-a-refused-stream-is-not-a-connection-error")
+		vNote(fmt.Sprintf("late frame %d on refused stream: goaway=%v/%d rst=%v", late, r.goaway, r.goawayCode, r.rst))
+		vAssert(!r.goaway, "C09.isolate.frames-in-flight-for-a-refused-stream-are-not-a-connection-error")
 		inc, _ := vWindowUpdates(all, 0, "C09.isolate.conn")
-		vAssert(int64(1<<22)-4+inc == int64(s.sc.currentWindow), "C09.isolate.refused-data-is-accounted-to-the-connection-window")
+		vAssert(int64(1<<22)-int64(sent)+inc == int64(s.sc.currentWindow), "C09.isolate.refused-data-is-accounted-to-the-connection-window")
 		s.hold = false
 		s.gate <- struct{}{}
 		vSettle()
